@@ -226,6 +226,14 @@ Theorem level_files_apart :
     unlinked_with_level l (String.append (level_file l') suffix) = false.
 Proof. exact level_files_apart. Qed.
 
+(* A task one of whose named coverages is empty at run time ("nothing to clean": the loader gives it the coverage
+   False) removes nothing at all - it does not fall back to the whole grid. *)
+Theorem empty_coverage_task_removes_nothing :
+  forall b q msize levels T all complete empties walked c,
+    In true empties ->
+    cleanup_task b q msize (mkTask levels T all complete (conf_skip empties)) walked c = c.
+Proof. exact empty_coverage_l. Qed.
+
 (* ---- refuted: the side condition dim_visible is necessary (known finding F15, reproduced on the implementation) *)
 
 (* F15: directory strategy skips dimension directories. *)
